@@ -13,7 +13,7 @@ struct Cfg {
 };
 
 const Cfg cfgs[] = {{"C01", "types"},   {"C02", "all"}, {"C04", "names"}, {"C05", "all"}, {"C06", "all"},   {"C07", "scopes"},
-                    {"C09", "all"},     {"C12", "regions"}, {"C14", "all"},   {"C15", "all"}, {"C16", "substs"}};
+                    {"C09", "all"},     {"C12", "regions"}, {"C13", "names"}, {"C14", "all"},   {"C15", "all"}, {"C16", "substs"}};
 
 std::string g_prop = "C02";
 std::string g_profile = "all";
@@ -124,6 +124,10 @@ vf::Outcome run_case(const Case& c, const vf::Options& o)
       oracle_derived(w);
       out.nontrivial = cls(out, "blocks_with_handlers") >= 1 && cls(out, "blocks_without_handlers") >= 1 && cls(out, "empty_sequences") >= 1 &&
                        cls(out, "many_element_sequences") >= 1 && cls(out, "equal_pairs") >= 1 && cls(out, "unequal_pairs") >= 1;
+   }
+   else if (p == "C13") {
+      oracle_constants(w);
+      out.nontrivial = cls(out, "census_reserved_spellings_requested") >= 0 && c.ops.size() >= 3 && cls(out, "constant_checks") >= 26;
    }
    else if (p == "C16") {
       oracle_substitutions(w);
